@@ -89,7 +89,7 @@ astronomically unlikely.  Round 6 (`Uxx_nk`, 20 changes): ten agents, each given
 maintainer-plausible change per property (refactoring, optimisation, fast path, cache, "fix") that needs something specific to manifest and that a random
 program generator would be unlikely to hit; the first-run results are kept in `seeded/round6_first_run.log`.  Each change was confirmed by `tools/seedtest.py` in a scratch worktree
 (applies, builds, baseline suite unchanged, demonstration differs between clean and changed build) and then `./check <ID> --tier quick` was run with
-the checkout overridden to the changed tree; when the target check stayed silent all other checks were run.  Kept under `seeded/<name>/`
+the checkout overridden to the changed tree; when the target check stayed silent all other checks were run (in round 6: the checks of two to four neighbouring properties).  Kept under `seeded/<name>/`
 (patch.diff, demonstration, meta.json).  After strengthening, every change is caught by the check of the property it was written against, with a
 concrete failing input, except R07_n3, which lies outside its property's domain, and S09_n2, which no search can trigger; both are
 caught by a mechanism obligation (reported as no-failing-input-found).  Of the 80 changes of rounds 3 to 5, 32 were missed by their
